@@ -165,7 +165,8 @@ def selftest_determinism(rest):
             'ok' if not mism else 'MISMATCH at jobs %s' % sorted(mism)[:10]))
         bad += len(mism)
     os.makedirs(core.EVIDENCE_DIR, exist_ok=True)
-    with open(os.path.join(core.EVIDENCE_DIR, 'determinism.json'), 'w') as fh:
+    with open(os.path.join(core.EVIDENCE_DIR, 'determinism.json'), 'w',
+              encoding='utf-8') as fh:
         json.dump({'report': report, 'wall_s': round(time.time() - t0, 1),
                    'configurations': [
                        'PYTHONHASHSEED=0, 8 concurrent interpreters',
@@ -189,7 +190,7 @@ def _patch_list():
         meta = os.path.join(d, 'meta.json')
         patch = os.path.join(d, 'patch.diff')
         if os.path.exists(meta) and os.path.exists(patch):
-            m = json.load(open(meta))
+            m = json.load(open(meta, encoding='utf-8'))
             out.append(('seeded/' + os.path.basename(d),
                         m.get('property_checked_under', m['property']),
                         patch))
@@ -265,7 +266,8 @@ def selftest_mutants(rest):
         finally:
             shutil.rmtree(scratch, ignore_errors=True)
     os.makedirs(core.EVIDENCE_DIR, exist_ok=True)
-    with open(os.path.join(core.EVIDENCE_DIR, 'sensitivity.json'), 'w') as fh:
+    with open(os.path.join(core.EVIDENCE_DIR, 'sensitivity.json'), 'w',
+              encoding='utf-8') as fh:
         json.dump({'results': results, 'tier': tier,
                    'wall_s': round(time.time() - t0, 1)}, fh, indent=1,
                   sort_keys=True)
@@ -332,7 +334,8 @@ def selftest_refactors(rest):
         finally:
             shutil.rmtree(scratch, ignore_errors=True)
     os.makedirs(core.EVIDENCE_DIR, exist_ok=True)
-    with open(os.path.join(core.EVIDENCE_DIR, 'specificity.json'), 'w') as fh:
+    with open(os.path.join(core.EVIDENCE_DIR, 'specificity.json'), 'w',
+              encoding='utf-8') as fh:
         json.dump({'results': results,
                    'wall_s': round(time.time() - t0, 1)}, fh, indent=1,
                   sort_keys=True)
